@@ -133,6 +133,11 @@ func (b *BFT) CheckProposerMessage(x *Message, p *validateMessageParams) (isPart
 	if x.Qc.Header.Phase != x.Header.Phase-1 {
 		return false, lib.ErrWrongPhase()
 	}
+	// ... and of the round of this leader message: a certificate of an earlier round (e.g. the election certificate of a
+	// validator that led round 0) must not justify a message in a later round
+	if x.Qc.Header.Round != x.Header.Round {
+		return false, ErrWrongCertificateRound()
+	}
 	// validate header height, qc height, and committee height
 	// NOTE: these height checks are correct even when sending a highQC as the header is updated when using a highQC
 	if x.Header.Height != p.height {
